@@ -281,33 +281,99 @@ def mon_status(shape, bypass=z3.BoolVal(False)):
     return mon
 
 
-def mon_all_or_none(shape, prs):
-    """C02: after each remote update, every PR's source tip (as of job start) is
-    in all of its targets or in none."""
+def changesets(state, shape, prs, scenario):
+    """What `PR p has landed on target t` means, from the refs at job start:
+    for a queued PR the commit queued for t (q/w/<id>/<t>), for a direct merge
+    its source tip.  Returns {(pid, t): commit}."""
+    out = {}
+    for p in prs:
+        for t in targets(shape, p.dst):
+            if scenario == 'Q':
+                out[(p.id, t)] = state[qw_name(p, shape, t)]
+            else:
+                out[(p.id, t)] = state[p.src]
+    return out
+
+
+def all_or_none_cond(repo, shape, p, ch, state):
+    ts = [t for t in targets(shape, p.dst) if t in state]
+    if len(ts) < 2:
+        return None
+    ins = [repo.subset_t(repo.cl(ch[(p.id, t)]), repo.cl(state[t])) for t in ts]
+    return z3.Or(z3.And(*ins), z3.Not(z3.Or(*ins)))
+
+
+def mon_all_or_none(shape, prs, scenario):
+    """C02: after each observable remote update, every PR has landed on all of
+    its targets or on none."""
     def mon(repo, op):
         if op['kind'] != 'update' or op['ref'] not in shape:
             return []
+        ch = changesets(repo.pre_remote, shape, prs, scenario)
         out = []
         for p in prs:
-            ts = [t for t in targets(shape, p.dst) if t in repo.remote]
-            if op['ref'] not in ts or len(ts) < 2:
+            if op['ref'] not in targets(shape, p.dst):
                 continue
-            s = repo.cl(repo.pre_remote[p.src])
-            ins = [repo.subset_t(s, repo.cl(repo.remote[t])) for t in ts]
-            out.append(('C02 PR %d on some but not all of its targets' % p.id,
-                        z3.Or(z3.And(*ins), z3.Not(z3.Or(*ins)))))
+            c = all_or_none_cond(repo, shape, p, ch, repo.remote)
+            if c is not None:
+                out.append(('C02 PR %d on some but not all of its targets' % p.id, c))
         return out
     return mon
 
 
-def assume_all_or_none(ctx, repo, shape, prs):
+def assume_all_or_none(ctx, repo, shape, prs, scenario):
+    ch = changesets(repo.remote, shape, prs, scenario)
     for p in prs:
-        ts = targets(shape, p.dst)
-        if len(ts) < 2:
-            continue
-        s = repo.cl(repo.remote[p.src])
-        ins = [repo.subset_t(s, repo.cl(repo.remote[t])) for t in ts]
-        ctx.assume(z3.Or(z3.And(*ins), z3.Not(z3.Or(*ins))))
+        c = all_or_none_cond(repo, shape, p, ch, repo.remote)
+        if c is not None:
+            ctx.assume(c)
+    if scenario == 'Q':
+        # every queued PR added a commit of its own on each of its versions
+        for i, p in enumerate(prs):
+            for q in prs[i + 1:]:
+                for t in targets(shape, p.dst):
+                    if t in targets(shape, q.dst):
+                        ctx.assume(ch[(p.id, t)] != ch[(q.id, t)])
+
+
+# -- third-party interference (C08) ---------------------------------------------------------
+def make_interference(ctx_holder, src_refs, new_name='feature/third-party'):
+    """Before each push, at most once per job, a third party (symbolic choice):
+    creates a new branch, pushes a commit to a source branch, or force-pushes
+    (rewinds) a source branch.  Acts on the server only (not on tracking refs)."""
+    state = {'done': False, 'log': []}
+
+    def hook(repo, where):
+        ctx = repo.ctx
+        if state['done']:
+            return
+        kind = ctx.choose('third_party_action', 4)
+        if kind == 0:
+            return
+        state['done'] = True
+        if kind == 1:
+            a = ctx.fresh_int('tp_atom')
+            ctx.assume(z3.And(a >= 0, a < repo.N))
+            repo.remote[new_name] = a
+            state['log'].append(('create', new_name, where, a))
+        elif kind == 2:
+            for r in src_refs:
+                if r in repo.remote:
+                    repo.remote[r] = repo.fresh(repo.cl(repo.remote[r]), 'third-party commit on ' + r)
+                    state['log'].append(('advance', r, where, None))
+                    break
+        else:
+            for r in src_refs:
+                if r in repo.remote:
+                    a = ctx.fresh_int('tp_rewind')
+                    ctx.assume(z3.And(a >= 0, a < repo.N))
+                    old = repo.cl(repo.remote[r])
+                    ctx.assume(z3.And(repo.subset_t(repo.cl(a), old), repo.cl(a) != old))
+                    repo.remote[r] = a
+                    state['log'].append(('rewind', r, where, a))
+                    break
+    hook.state = state
+    return hook
 
 
 # -- running the real code on a backend (symbolic or real repository) -------------------------
@@ -402,6 +468,69 @@ def scenario_direct_merge(ctx, shape, pr, natoms, monitors, no_octopus=False,
     return repo, out
 
 
+def skip_queue_refs(shape, pr):
+    return direct_refs(shape, pr) + ['q/' + version_of(d) for d in shape]
+
+
+def run_skip_queue(repo, host, shape, pr, no_octopus=False, bypass=False):
+    """The tail of _handle_pull_request in skip_queue_when_not_needed mode: the
+    real check_in_sync, check_build_status, build_queue_collection, is_needed,
+    QueueCollection.delete and merge_integration_branches, in the handler's order.
+    Cut: update_integration_branches (needs `git log`); paths that are not in
+    sync are dropped (the handler then pushes new w/ tips and waits for builds)."""
+    from bert_e.workflow import gitwaterflow as gwf
+    from bert_e.workflow.gitwaterflow import queueing, branches as B, integration as I
+    from bert_e.workflow.git_utils import clone_git_repo
+    from bert_e.job import PullRequestJob
+    from bert_e import exceptions as ex
+    from bert_e.lib import git as G
+    berte = make_berte(repo, host, skip_queue_when_not_needed=True,
+                       no_octopus=no_octopus, bypass_build_status=bypass)
+    job = PullRequestJob(bert_e=berte, pull_request=host.get_pull_request(pr.id))
+    clone_git_repo(job)
+    job.git.cascade = B.BranchCascade()
+    job.git.src_branch = B.branch_factory(repo, pr.src)
+    job.git.dst_branch = B.branch_factory(repo, pr.dst)
+    B.build_branch_cascade(job)
+    wbranches = list(I.create_integration_branches(job))
+    if not gwf.check_in_sync(job, wbranches):
+        raise PathAbort()
+    try:
+        gwf.check_build_status(job, wbranches)
+    except (ex.BuildFailed, ex.BuildNotStarted, ex.BuildInProgress) as e:
+        return type(e).__name__
+    queues = queueing.build_queue_collection(job)
+    if queueing.is_needed(job, wbranches, queues):
+        return 'queue'
+    queues.delete()
+    try:
+        I.merge_integration_branches(job, wbranches)
+        return 'merged'
+    except G.MergeFailedException:
+        return 'conflict'
+    except G.PushFailedException:
+        return 'pushfail'
+
+
+def scenario_skip_queue(ctx, shape, pr, natoms, monitors_of, no_octopus=False,
+                        reject=None, nfresh=None, pre=None):
+    ts = targets(shape, pr.dst)
+    refs = skip_queue_refs(shape, pr)
+    if nfresh is None:
+        nfresh = 3 * len(ts) + 6
+    repo = SymRepo(ctx, refs, natoms, nfresh)
+    repo.reject_refs = reject
+    ctx.assume(symgit.status_domain(repo, natoms + nfresh))
+    assume_inclusion(ctx, repo, shape)
+    if pre:
+        pre(ctx, repo)
+    byp = z3.Bool('bypass_build_status')
+    repo.monitors = list(monitors_of(byp))
+    host = Host(repo, [pr], ctx)
+    out = run_skip_queue(repo, host, shape, pr, no_octopus, SBool(byp))
+    return repo, host, out
+
+
 # -- counterexamples: concretise, replay on a real repository ----------------------------------
 def cex_data(scenario, shape, prs, v, **params):
     return dict(scenario=scenario, shape=list(shape),
@@ -416,10 +545,12 @@ class Crash(BaseException):
     pass
 
 
-def real_observe(world, shape, prs, pre_heads, statuses):
+def real_observe(world, shape, prs, pre_heads, statuses, scenario='D'):
     """Evaluate the monitors' conditions concretely on the real remote."""
     heads = world.heads()
     bad = []
+    pre_heads = dict(pre_heads)
+    pre_heads.update(getattr(world, 'third_party_heads', {}))
     for a, b in inclusion_pairs(shape):
         if a in heads and b in heads and not world.is_ancestor(heads[a], heads[b]):
             bad.append('C01 inclusion %s in %s' % (a, b))
@@ -439,14 +570,39 @@ def real_observe(world, shape, prs, pre_heads, statuses):
             bad.append('C08 foreign ref %s deleted' % r)
         elif heads[r] != s:
             bad.append('C08 foreign ref %s updated' % r)
+    try:
+        ch = changesets(pre_heads, shape, prs, scenario)
+    except KeyError:
+        ch = {}
     for p in prs:
         ts = [t for t in targets(shape, p.dst) if t in heads]
-        if len(ts) < 2 or p.src not in pre_heads:
+        if len(ts) < 2 or any((p.id, t) not in ch for t in ts):
             continue
-        ins = [world.is_ancestor(pre_heads[p.src], heads[t]) for t in ts]
+        ins = [world.is_ancestor(ch[(p.id, t)], heads[t]) for t in ts]
         if any(ins) and not all(ins):
             bad.append('C02 PR %d on some but not all of its targets' % p.id)
     return bad, heads
+
+
+def _third_party_callback(data):
+    tp = data.get('third_party')
+    if not tp:
+        return None
+    kind, ref, where, atom = tp[0]
+    want = ' '.join(where.replace('before push', 'git push').split())
+
+    def cb(world, command):
+        if ' '.join(command.split()) != want or cb.done:
+            return
+        cb.done = True
+        if kind == 'create':
+            world.third_party_create(ref, atom)
+        elif kind == 'advance':
+            world.third_party_commit_on(ref)
+        elif kind == 'rewind':
+            world.third_party_set(ref, world.sha[atom])
+    cb.done = False
+    return cb
 
 
 def replay_on_real_git(data, crash_after_pushes=None, interference=None):
@@ -468,10 +624,13 @@ def replay_on_real_git(data, crash_after_pushes=None, interference=None):
         count = [0]
         orig_cmd = G.Repository.cmd
 
+        if interference is None:
+            interference = _third_party_callback(data)
+
         def cmd(self, command, *args, **kw):
             if command.startswith('git push'):
                 if interference is not None:
-                    interference(world, count[0])
+                    interference(world, command % args if args else command)
                 if crash_after_pushes is not None and count[0] >= crash_after_pushes:
                     raise Crash()
                 count[0] += 1
@@ -481,6 +640,10 @@ def replay_on_real_git(data, crash_after_pushes=None, interference=None):
             try:
                 if data['scenario'] == 'merge_queues':
                     out = run_merge_queues(repo, host, data['params'].get('force_merge', False))
+                elif data['scenario'] == 'skip_queue':
+                    out = run_skip_queue(repo, host, shape, prs[0],
+                                         data['params'].get('no_octopus', False),
+                                         bool(data['params'].get('bypass', False)))
                 elif data['scenario'] == 'direct_merge':
                     out = run_direct_merge(repo, shape, prs[0],
                                            data['params'].get('no_octopus', False))
@@ -494,7 +657,8 @@ def replay_on_real_git(data, crash_after_pushes=None, interference=None):
                 repo.delete()
             except Exception:
                 pass
-        bad, heads = real_observe(world, shape, prs, pre_heads, host.status)
+        bad, heads = real_observe(world, shape, prs, pre_heads, host.status,
+                                  'Q' if data['scenario'] == 'merge_queues' else 'D')
         return bad, out
     finally:
         world.cleanup()
